@@ -136,7 +136,9 @@ namespace Givaro
         template<typename T> Element& init(Element& r, const T& a) const
         {
             // reduce in 64 bits: T need not fit into an Element (long long is not int64_t)
-            return init(r, Caster<int64_t>(a));
+            typedef typename std::conditional<std::is_floating_point<T>::value, double,
+                    typename std::conditional<std::is_unsigned<T>::value, uint64_t, int64_t>::type>::type Wide;
+            return init(r, Caster<Wide>(a));
         }
 
         Element& assign(Element& x, const Element& y) const
